@@ -349,7 +349,9 @@ pub fn tokenize(text: &str) -> Result<Vec<ParserToken>, ParserError> {
     let mut current_str: Option<String> = None;
     let mut is_escaped = false;
     let mut is_comment = false;
+    let mut previous_char = None;
     while let Some(current) = state.next_char() {
+        let previous = previous_char.replace(current);
         if current == '\n' {
             state.line += 1;
             state.column = 0;
@@ -500,7 +502,11 @@ pub fn tokenize(text: &str) -> Result<Vec<ParserToken>, ParserError> {
                         state.tokens.last_mut().unwrap().token = Token::RightArrow;
                         is_dual = true;
                     },
-                    Token::Operator(Operator::Single(operator)) if TWO_CHAR_OPERATORS.contains(operator) => {
+                    // Only adjacent characters that form an operator (<=, >=, !=, ==) or start a comment (--) are merged,
+                    // so that a sign may follow any operator (x=-1, x - -1)
+                    Token::Operator(Operator::Single(operator)) if TWO_CHAR_OPERATORS.contains(operator)
+                                                                   && previous == Some(*operator)
+                                                                   && (current == '=' || (*operator == '-' && current == '-')) => {
                         state.tokens.last_mut().unwrap().token = Token::Operator(Operator::Dual(*operator, current));
                         is_dual = true;
                     }
